@@ -24,6 +24,15 @@ CHECKS = {
         note="conditioning from a finite-difference Jacobian at the point; declared constants: cubic quadratic_threshold/eps, UMNN bisection, Sigmoid clamp; at kinks either one-sided log-det is accepted",
         ref="DESIGN.md 4/C02",
     ),
+    "C05": dict(
+        technique="bounded-exhaustive enumeration of distribution classes x event shapes x encoders x patterns x context rows; oracles: exact summation, deterministic sinh-grid quadrature with self-estimated error, and an exact push-forward identity on an injected quantile lattice (RNG seam)",
+        text="Every density-returning object is integrated deterministically: exact sum over {0,1}^n for the Bernoulli, 1-D / 2-D midpoint quadrature (n and n/2 points) for the normal family, the MADE "
+        "mixture (1-2 features, 1-3 components), BoxUniform, MG1Uniform and the kernel-density evaluator, and additivity + per-factor quadrature beyond two coordinates (incl. LotkaVolterraOscillating); "
+        "mean() must have the documented shape and equal the quadrature first moment; sample() is run with the mid-quantiles of N(0,1) / U(0,1) injected through a seam and every sorted sample must sit "
+        "at its (k+1/2)/m quantile of the density (Bernoulli: frequency within 1/m of p).",
+        note="statistical clause replaced by its push-forward form; the mixture's sampler is only shape-checked; discontinuous uniform densities with a 5e-2 quadrature tolerance",
+        ref="DESIGN.md 4/C05",
+    ),
     "C06": dict(
         technique="exhaustive enumeration of architectures and of every random-mask draw (choice-tree DFS with stateless replay of the constructor under a torch.randint seam); structural reachability model over the registered masks + conformance of the model to the real forward (witness-weight Jacobian pattern, invariance under replacement)",
         text="Both MADE implementations (and MixtureOfGaussiansMADE) are built for every (features 1..4/5, hidden 1..6, blocks 0..2, residual/feed-forward, context, output multiplier, "
